@@ -261,6 +261,11 @@ func init() {
 			}
 		}
 		out.Data["extension_list_readers"] = extReaders
+		shapes, err := loopShapes()
+		if err != nil {
+			return err
+		}
+		out.Data["multi_status_loops"] = shapes
 		return out.Emit()
 	}
 }
